@@ -18,10 +18,10 @@ for pid, spec in table.items():
     for item in spec["theorems"]:
         mod, name = item["from"].split(".", 1)
         newname = item.get("as", name.split(".")[-1])
-        q = header + "Set Printing Width 110.\nSet Printing Depth 1000.\nCheck %s.%s.\n" % (mod, name)
+        q = header + "Set Printing Width 110.\nSet Printing Depth 1000.\nCheck @%s.%s.\n" % (mod, name)
         p = subprocess.run(["coqtop", "-Q", "theories", "Ice", "-Q", "proofs", "IceProofs", "-quiet"], input=q, cwd=COQ,
                            stdout=subprocess.PIPE, stderr=subprocess.PIPE, text=True)
-        m = re.search(re.escape(mod + "." + name) + r"\s*:\s*(.*?)\n\s*\n", p.stdout + "\n\n", re.S)
+        m = re.search(r"@?" + re.escape(mod + "." + name) + r"\s*:\s*(.*?)\n\s*\n", p.stdout + "\n\n", re.S)
         if not m:
             print("cannot Check", mod, name, p.stdout[-500:], p.stderr[-500:])
             sys.exit(1)
@@ -30,6 +30,6 @@ for pid, spec in table.items():
         if item.get("comment"):
             out.append("(* %s *)" % item["comment"])
         kind = "Example" if item.get("example") else "Theorem"
-        out.append("%s %s :\n    %s.\nProof. exact %s.%s. Qed.\nPrint Assumptions %s.\n" % (kind, newname, ty, mod, name, newname))
+        out.append("%s %s :\n    %s.\nProof. exact @%s.%s. Qed.\nPrint Assumptions %s.\n" % (kind, newname, ty, mod, name, newname))
     open(os.path.join(COQ, "properties", pid + ".v"), "w").write("\n".join(out))
     print("wrote", pid)
